@@ -153,7 +153,7 @@ theorem moving_ready : ∀ (todo : List (Nat × Option Req)) (n : Nat) (c : Cfg)
       have hp1 : (doTick c m (.moving ((i, none) :: rest))).ph = .live m (afterMove rest) := rfl
       exact after _ m n' hi1 hp1 hs hcdi hout (by omega)
     | some r =>
-      by_cases hb : backupDue c.k (m.wi + 1) 5 = true
+      by_cases hb : writeBackupDue c.k (m.wi + 1) = true
       · have hp1 : (doTick c m (.moving ((i, some r) :: rest))).ph =
             .live { m with wi := m.wi + 1, size := m.size + c.k.sizeof r } (.movingBackup rest) := by
           simp only [doTick, doMove, hb, if_true]
@@ -281,8 +281,8 @@ theorem drainStep_spec {c : Cfg} (hi : Inv c) (hr : Ready c) (hlt : c.st.R < c.s
   generalize doRead c m = c1 at hp1 hst1 hh1
   rw [tick_readRet hp1]
   dsimp only
-  generalize hc2 : ({ c1 with ph := .live { ri := m.ri + 1, wi := m.wi, cdi := m.cdi ++ [m.ri], size := if m.ri + 1 = m.wi then 0 else m.size, stopped := m.stopped, outst := (m.ri, r) :: m.outst } .idle, handed := r :: c1.handed, res := .readItem m.ri r } : Cfg) = c2
-  have hp2 : c2.ph = .live { ri := m.ri + 1, wi := m.wi, cdi := m.cdi ++ [m.ri], size := if m.ri + 1 = m.wi then 0 else m.size, stopped := m.stopped, outst := (m.ri, r) :: m.outst } .idle := by rw [← hc2]
+  generalize hc2 : ({ c1 with ph := .live { ri := m.ri + 1, wi := m.wi, cdi := m.cdi ++ [m.ri], size := if m.ri + 1 = m.wi then 0 else m.size, stopped := m.stopped, outst := (m.ri, r) :: m.outst, waiting := m.waiting } .idle, handed := r :: c1.handed, res := .readItem m.ri r } : Cfg) = c2
+  have hp2 : c2.ph = .live { ri := m.ri + 1, wi := m.wi, cdi := m.cdi ++ [m.ri], size := if m.ri + 1 = m.wi then 0 else m.size, stopped := m.stopped, outst := (m.ri, r) :: m.outst, waiting := m.waiting } .idle := by rw [← hc2]
   have hst2 : c2.st = c1.st := by rw [← hc2]
   have hh2 : c2.handed = r :: c1.handed := by rw [← hc2]
   obtain ⟨hst3, m3, pc3, hp3, hpc3, hs3, ho3, hh3⟩ := done_final_single hp2 (by rw [ho]) (by rw [hcdi]; rfl)
